@@ -3,7 +3,7 @@ import WK.Model.C17
 /-
   C17 driver.  One line = one ApplyBatch on the real slot FSM (`batch a ; b`
   = several commands in one call) or the environment step `setmeta`.
-  Symbolic fields (`*` current, `^` current+1) are resolved against the state
+  Symbolic fields (`*` current, `^` current+1, `~` current-1) are resolved against the state
   before the line (model state for the model run, implementation state for the
   judge).  Output: `<results> # <dump>`; the judge parses the implementation's
   dump and evaluates the five C17 predicates on (previous impl state, this
@@ -38,6 +38,7 @@ def val (cur : Nat) : P Nat := do
   let t ← tok
   if t == "*" then pure cur
   else if t == "^" then pure (cur + 1)
+  else if t == "~" then pure (cur - 1)
   else match numOf t with
     | some n => pure n
     | none => failure
@@ -171,11 +172,12 @@ def cmdP (s : State) : P Cmd := do
   done
   pure c
 
-def setMetaP : P (Nat × Meta) := do
+def setMetaP (s : State) : P (Nat × Meta) := do
   let c ← chanP
+  let cur := curMeta s c
   let cep ← lit; let lep ← lit; let leader ← lit; let minisr ← lit; let lease ← lit
   let replicas ← listP; let isr ← listP
-  let ftok ← lit; let fver ← lit; let freason ← lit8; let funtil ← lit
+  let ftok ← val cur.ftok; let fver ← val cur.fver; let freason ← val8 cur.freason; let funtil ← val cur.funtil
   done
   pure (c, { cep, lep, rgen := 0, leader, minisr, lease, replicas, isr, ftok, fver, freason, funtil })
 
@@ -192,7 +194,7 @@ inductive Line
 def parseLine (s : State) (op : String) : Option Line :=
   match fields op with
   | [] => none
-  | "setmeta" :: rest => (setMetaP.run rest).map (fun r => Line.setmeta r.1.1 r.1.2)
+  | "setmeta" :: rest => ((setMetaP s).run rest).map (fun r => Line.setmeta r.1.1 r.1.2)
   | "batch" :: rest =>
     let groups := splitSemi rest
     let cmds := groups.filterMap (fun g => (cmdP s |>.run g).map (·.1))
